@@ -88,6 +88,7 @@ pub fn execute(
     entry: Entry,
     call_budget: usize,
 ) -> ExecRecord {
+    crate::driver::heartbeat();
     let world = World::new(input.to_vec(), sched, call_budget);
     let r = SimReader(world.clone());
     let w = SimWriter(world.clone());
@@ -423,7 +424,7 @@ impl Property for C08 {
     fn evidence_info(&self) -> EvidenceInfo {
         EvidenceInfo {
             level: "fault_enumeration",
-            rule: "A scenario is a generated I/O script (say/listen interleaved with loops, branches, function calls, fillers, optional terminal runtime error) rendered to Rockstar with seeded spellings, plus a generated input text; it is executed fault-free under four delivery modes and benign noisy schedules (random chunking, short writes, finite EINTR bursts), then with one hard fault at every byte offset of the expected output (writer: error kinds / Ok(0)) and every byte offset of the input and every read call (reader: error kinds / premature EOF) - all positions in thorough, all positions when <= 48 else 48 sampled (boundaries kept) in quick - each under plain and noisy delivery. evaluations = executions of the real interpreter. A scenario counts as non-trivial when its expected trace has at least one say and one listen and at least one injected hard fault fired; distinct = distinct hash of (program text, input).".into(),
+            rule: "A scenario is a generated I/O script (say/listen interleaved with loops, branches, function calls, fillers, optional terminal runtime error) rendered to Rockstar with seeded spellings, plus a generated input text; it is executed fault-free under four delivery modes and benign noisy schedules (random chunking, short writes, finite EINTR bursts), then with one hard fault at every byte offset of the expected output (writer: error kinds / Ok(0)) and every byte offset of the input and every read call (reader: error kinds / premature EOF) - thorough: all positions when <= 1500 (only scenarios with a line longer than the 8 KiB read buffer exceed that; they get 1500 positions incl. all line/say boundaries); quick: all positions when <= 48 else 48 sampled (boundaries kept) - each under plain and noisy delivery. evaluations = executions of the real interpreter. A scenario counts as non-trivial when its expected trace has at least one say and one listen and at least one injected hard fault fired; distinct = distinct hash of (program text, input).".into(),
             assumptions: vec![
                 "The executing listen at a read call is identified as (newlines delivered + Ok(0) returned + 1): the interpreter asks the Read for more only while a listen executes and no complete line is buffered (lazy line reading at the Read seam).".into(),
                 "Line terminator is '\\n'; inputs with '\\r' directly before '\\n' are not generated.".into(),
@@ -608,7 +609,10 @@ impl Property for C08 {
         }
 
         // (c) single hard fault at every position
-        let cap = if thorough { usize::MAX } else { 48 };
+        // thorough: every position up to 1500 (covers every scenario except
+        // those with a line longer than the 8 KiB read buffer, which are
+        // sampled: 1500 positions incl. all line/say boundaries)
+        let cap = if thorough { 1500 } else { 48 };
         let kinds_per_pos = if thorough { WRITE_KINDS.len() } else { 1 };
         // writer: every byte offset of the expected output
         let say_bounds: Vec<usize> = full
